@@ -70,6 +70,8 @@ namespace {
         std::map<int, EpItem> items;
         std::deque<int> ready;
         int stats_idx = -1;
+        u64 last_progress = 0;
+        int idle_returns = 0;
         uint32_t poll_mask() override { return has_ready() ? EPOLLIN : 0; }
         void on_wake(int fd, uint32_t key)
         {
@@ -196,6 +198,7 @@ namespace {
         std::vector<EpollStats> estats;
         std::set<int> real_files; // real descriptors opened through the wrapped open()
         u64 io_progress = 0;
+        std::map<int, int> eagain_streak; // per thread: EAGAIN results from send since its last epoll_wait
         sim::Rng frng { 7 };
         bool frng_init = false;
     };
@@ -570,6 +573,7 @@ void reset()
     for (int fd : k.real_files) ::close(fd);
     k.real_files.clear();
     k.io_progress = 0;
+    k.eagain_streak.clear();
     k.frng_init = false;
 }
 
@@ -792,6 +796,9 @@ ssize_t stream_send(Stream* s, const char* data, size_t len)
         if (r == -EAGAIN) {
             st.send_eagain++;
             sim::rec().fault("would_block");
+            int& streak = k.eagain_streak[sim::self_id()];
+            if (++streak == 300)
+                anomaly("send.eagain-spin", std::string(sim::self_name()) + " got EAGAIN from send/sendfile on " + describe_fd(s->fd) + " 300 times without calling epoll_wait in between");
         }
         return fail(static_cast<int>(-r));
     }
@@ -829,6 +836,7 @@ int __wrap_close(int fd)
     File* f = get(fd);
     if (!f) return bad_fd("close", fd);
     sim::trace(sim::mix(0xc105e, static_cast<u64>(fd)));
+    k.io_progress++;
     // remove from every epoll interest list
     for (auto& w : f->watchers) {
         auto it = w.ep->items.find(fd);
@@ -896,6 +904,7 @@ ssize_t __wrap_read(int fd, void* buf, size_t n)
             }
             v = e->counter;
             e->counter = 0;
+            k.io_progress++;
             sim::trace(sim::mix(0xe7d, v));
         }
         memcpy(buf, &v, 8);
@@ -914,6 +923,7 @@ ssize_t __wrap_read(int fd, void* buf, size_t n)
             }
             v = t->expirations;
             t->expirations = 0;
+            k.io_progress++;
         }
         memcpy(buf, &v, 8);
         return 8;
@@ -1067,6 +1077,7 @@ int __wrap_accept4(int fd, struct sockaddr* addr, socklen_t* alen, int flags)
     c->e[1].file = sp;
     fill_addr(addr, alen, c->client_port);
     sim::rec().stats["accepted"]++;
+    k.io_progress++;
     return nfd;
 }
 int __wrap_accept(int fd, struct sockaddr* addr, socklen_t* alen)
@@ -1386,6 +1397,7 @@ int __wrap_epoll_wait(int epfd, struct epoll_event* evs, int maxevents, int time
         if (maxevents <= 0) return fail(EINVAL);
         EpollStats& st = k.estats[static_cast<size_t>(ep->stats_idx)];
         st.waits++;
+        k.eagain_streak[sim::self_id()] = 0;
         if (k.faults.epoll_eintr_p > 0 && frng().chance(k.faults.epoll_eintr_p)) {
             sim::rec().fault("epoll_eintr");
             return fail(EINTR);
@@ -1425,6 +1437,14 @@ int __wrap_epoll_wait(int epfd, struct epoll_event* evs, int maxevents, int time
         if (!out.empty()) {
             st2.returns++;
             st2.events_reported += out.size();
+            // busy-wait detector: the loop keeps being woken although nothing moves
+            if (k.io_progress == ep->last_progress) {
+                if (++ep->idle_returns == 200)
+                    anomaly("epoll.idle-spin", std::string(sim::self_name()) + " returned from epoll_wait on " + describe_fd(epfd) + " 200 times in a row with events (last: " + describe_fd(static_cast<int>(out[0].data.u64 & 0xffffff)) + " mask " + std::to_string(out[0].events) + ") while no byte moved, no timer fired and no notification was written");
+            } else {
+                ep->idle_returns = 0;
+                ep->last_progress = k.io_progress;
+            }
         }
     }
     for (size_t i = 0; i < out.size(); ++i) evs[i] = out[i];
